@@ -23,7 +23,7 @@ DRIVER = 'Driver/C14.lean'
 REQUIRED_THEOREMS = ['CfVerif.C14.' + t for t in (
     'i2c_roundtrip_v0', 'i2c_roundtrip_v1', 'i2c_image_total', 'i2c_update_is_layout', 'i2c_valid_iff_checksum',
     'i2c_single_corruption_detected_partial', 'i2c_version_corruption_iff', 'i2c_single_corruption_detected_counterexample',
-    'ow_roundtrip', 'ow_roundtrip_lookup', 'ow_update_is_layout', 'ow_valid_iff_crc', 'ow_completes_iff', 'ow_roundtrip_live_counterexample',
+    'ow_image_total', 'ow_roundtrip', 'ow_roundtrip_lookup', 'ow_update_is_layout', 'ow_valid_iff_crc', 'ow_completes_iff', 'ow_roundtrip_live_counterexample',
     'ow_valid_iff_crc_live_counterexample',
     'lh_geo_container_roundtrip', 'lh_calib_container_roundtrip', 'lh_geo_roundtrip', 'lh_calib_roundtrip', 'lh_config_roundtrip',
     'deck_info_parse', 'deck_flags', 'deck_info_version_rejected',
@@ -1682,7 +1682,32 @@ def gen_yaml(ctx, cases):
         cases.append(('pf_read', 'pf_read ' + y_enc(d), (lambda d=d: real_pf_read(d)), canon_y_nan, {'op': 'pf_read', 'doc': repr(d)[:100]}, ('pf_read', y_enc(d))))
 
 
-GENERATORS = [gen_i2c, gen_ow, gen_lh, gen_deck, gen_loco, gen_yaml]
+def gen_corpus(ctx, cases):
+    """harness/corpus/c14/*.json: committed witnesses / past disagreements, replayed first"""
+    import glob
+    import json
+    here = os.path.dirname(os.path.dirname(os.path.abspath(__file__)))
+    for fn in sorted(glob.glob(os.path.join(here, 'corpus', 'c14', '*.json'))):
+        doc = json.load(open(fn))
+        for line in doc.get('lines', []):
+            w = line.split(' ')
+            cps = lambda t: [int(x) for x in t.split('.')] if t else []
+            if w[0] == 'ow_write':
+                elems = [] if w[4] == '-' else [(int(e.split(':')[0]), cps(e.split(':')[1])) for e in w[4].split(',')]
+                thunk = (lambda w=w, e=elems: real_ow_write(int(w[1]), int(w[2]), int(w[3]), e))
+            elif w[0] == 'ow_parse':
+                thunk = (lambda w=w: real_ow_parse(bytes.fromhex(w[1])))
+            elif w[0] == 'i2c_write':
+                thunk = (lambda w=w: real_i2c_write(int(w[1]), int(w[2]), int(w[3]), int(w[4]), int(w[5]), None if w[6] == 'none' else int(w[6])))
+            elif w[0] == 'i2c_parse':
+                thunk = (lambda w=w: real_i2c_parse(bytes.fromhex(w[1])))
+            else:
+                raise RuntimeError('corpus %s: unknown op %s' % (fn, w[0]))
+            cases.append((w[0], line, thunk, canon_i2c_parse if w[0] == 'i2c_parse' else None,
+                          {'op': w[0], 'corpus': os.path.basename(fn)}, ('corpus', line)))
+
+
+GENERATORS = [gen_corpus, gen_i2c, gen_ow, gen_lh, gen_deck, gen_loco, gen_yaml]
 
 
 def correspond(ctx):
